@@ -73,7 +73,10 @@ def check_history(case):
         if not r:
             for op in case["ops"]:
                 step += 1
-                kinds.append(_apply(part, pspec, op, d))
+                try:
+                    kinds.append(_apply(part, pspec, op, d))
+                except Exception as e:  # noqa: BLE001 - a crash is not a C03 verdict
+                    return Outcome(aborted="exception:" + type(e).__name__, classes=classes, rounds=len(kinds))
                 r = tree_consistent(part)
                 if r:
                     break
